@@ -14,7 +14,8 @@ Inductive oact :=
 | OF1 | OF2 | OC1 (ocs : option changeset) (* the change set Compact returned (observed when it is applied) / nil *) | OC2
 | OC1F (* the compaction step hit an injected storage read fault and Compact returned the error *)
 | OReadErr (* the following Get / ScanPrefix returned an error *)
-| ODupFile. (* a table file name (NNNNNN.sst) was created or saved a second time *)
+| ODupFile (* a table file name (NNNNNN.sst) was created or saved a second time *)
+| OTaskErr. (* db.WaitOnTasks reported a background task error although no fault was injected *)
 
 (* observations of a level list: Get of every key of the alphabet, ScanPrefix of every prefix *)
 Definition reads := (list getres * list (list (bytes * bytes)))%type.
@@ -68,7 +69,7 @@ Definition to_ract (o : oact) : ract :=
   | OGet1 k => RGet1 k | OGet2 _ => RGet2
   | OScan1 p => RScan1 p | OScan2 _ => RScan2
   | OF1 => RF1 | OF2 => RF2 | OC1 ocs => RC1 ocs | OC2 => RC2 | OC1F => RC1F
-  | OReadErr | ODupFile => RF1 (* not model actions: skipped by model_codes *)
+  | OReadErr | ODupFile | OTaskErr => RF1 (* not model actions: skipped by model_codes *)
   end.
 
 Definition obs_code (o : oact) (m : obs) : list N :=
@@ -84,7 +85,7 @@ Definition obs_code (o : oact) (m : obs) : list N :=
 Fixpoint model_codes (st : db) (acts : list oact) : list N :=
   match acts with
   | [] => []
-  | OReadErr :: r | ODupFile :: r => model_codes st r
+  | OReadErr :: r | ODupFile :: r | OTaskErr :: r => model_codes st r
   | o :: r =>
       match rstep true st (to_ract o) with
       | Some (st', m) => obs_code o m ++ model_codes st' r
@@ -108,6 +109,7 @@ Fixpoint spec_codes (m : list (bytes * bytes)) (pend : bytes) (acts : list oact)
       | OScan1 p => spec_codes m p r
       | OReadErr => 100 :: spec_codes m pend r
       | ODupFile => 19 :: spec_codes m pend r
+      | OTaskErr => 101 :: spec_codes m pend r
       | OGet2 g => (if spec_get_ok g (sm_get pend m) then [] else [11]) ++ spec_codes m pend r
       | OScan2 s => (if kvs_eqb s (sm_scan pend m) then [] else if strictly_ascending s then [12] else [13])
                       ++ spec_codes m pend r
